@@ -5,7 +5,7 @@ oracle's answer: cmp((x,p),(y,q)) = sign(10^(m-p) x - 10^(m-q) y) over the
 integers (Appendix A.7).  partial_cmp never returns None, cmp has no panic edge.
 """
 from ..absint import Interp, Opts, ByRef, Agg, OPTION, ORDERING, Int
-from ..harness import (M, SCALES_QUICK, SCALES_ALL, dec_val, int_val, opt_parts, show_outcome, show_poly, get_db, run_jobs,
+from ..harness import (dec_coeff, M, SCALES_QUICK, SCALES_ALL, dec_val, int_val, opt_parts, show_outcome, show_poly, get_db, run_jobs,
                        find_root, split_bool)
 from ..db import INT_TYPES9, span_str
 from ..poly import padd, pscale
@@ -40,19 +40,15 @@ def run_job(job):
     I = Interp(db, Opts())
     st = I.new_state()
     if form == 'DD':
-        xa, ya = dec_val(st, 'x', p), dec_val(st, 'y', q)
-        if lt != 'Decimal':
-            xa = Agg('fpdec::' + lt, 0, xa.fields)
-        if rt != 'Decimal':
-            ya = Agg('fpdec::' + rt, 0, ya.fields)
-        xc, yc = xa.fields[0], ya.fields[0]
+        xa, ya = dec_val(st, 'x', p, adt='fpdec::' + lt), dec_val(st, 'y', q, adt='fpdec::' + rt)
+        xc, yc = dec_coeff(xa), dec_coeff(ya)
     elif form == 'DI':
         xa, ya = dec_val(st, 'x', p), int_val(st, 'y', ty)
-        xc, yc = xa.fields[0], ya
+        xc, yc = dec_coeff(xa), ya
         q = 0
     else:
         xa, ya = int_val(st, 'x', ty), dec_val(st, 'y', q)
-        xc, yc = xa, ya.fields[0]
+        xc, yc = xa, dec_coeff(ya)
         p = 0
     m = max(p, q)
     D = padd(pscale(xc.p, 10 ** (m - p)), pscale(yc.p, 10 ** (m - q)), -1)    # a*x - b*y
